@@ -36,3 +36,10 @@ var _ = time.Now
 
 // WorkerMain is the entry point of worker sub-processes (see pool.go).
 func WorkerMain() { workerMain() }
+
+func init() {
+	// self-test of the reference CRCs against the published check values
+	if ref16, ref32 := refCRC16("123456789"), refCRC32("123456789"); ref16 != 0x906E || ref32 != 0xE3069283 {
+		panic("reference CRC self-test failed")
+	}
+}
